@@ -11,6 +11,7 @@ import (
 	"verif/internal/gda"
 	"verif/internal/gen"
 	"verif/internal/mon"
+	"verif/internal/rng"
 )
 
 func init() {
@@ -38,7 +39,8 @@ func acceptance(p gda.Parsed) string {
 	if !resultIn {
 		return "must-reject"
 	}
-	if abs64(p.WrittenExp) > gen.MaxExp {
+	if abs64(p.WrittenExp) > gen.MaxExp || abs64(p.WrittenExp-p.Exp) > gen.MaxExp {
+		// (the second term is the length of the fraction)
 		// grammatical, result within the limits, but the written exponent field
 		// itself is beyond +/-100000: C04 and C14 pull in different directions
 		return "unconstrained"
@@ -46,9 +48,35 @@ func acceptance(p gda.Parsed) string {
 	return "must-accept"
 }
 
+// giantString draws very long grammatical strings: redundant leading zeros,
+// all-zero mantissas and maximal-length coefficients (tens to hundreds of
+// kilobytes), whose value is still within the limits.
+func giantString(r *rng.R) string {
+	L := []int{65536, 100001, 131072, 200000, 200001, 200002, 262144, 400000}[r.Intn(8)]
+	sign := []string{"", "-", "+"}[r.Intn(3)]
+	switch r.Intn(4) {
+	case 0: // zeros only
+		return sign + strings.Repeat("0", L)
+	case 1: // leading zeros, then a short number
+		return sign + strings.Repeat("0", L) + gen.Digits(r, int64(1+r.Intn(6))) + "." + gen.Digits(r, int64(1+r.Intn(3)))
+	case 2: // 0 1 000...0 E-100000 style: long significant coefficient with a compensating exponent
+		n := L
+		if n > 100001 {
+			n = 100001
+		}
+		return sign + "0" + gen.Digits(r, 1) + strings.Repeat("0", n-1) + "E-" + fmt.Sprint(n-1)
+	default: // long fraction of zeros
+		return sign + "0." + strings.Repeat("0", L/2) + gen.Digits(r, 3) + "E+" + fmt.Sprint(L/2)
+	}
+}
+
 func parseAcceptCase(t *mon.T) {
+	parseAcceptString(t, numericString(t.Rng))
+}
+
+func parseAcceptString(t *mon.T, s string) {
 	r := t.Rng
-	s := numericString(r)
+	_ = r
 	p := gda.Recognise(s)
 	class := acceptance(p)
 	var d1, d2, d3, d4 apd.Decimal
@@ -301,18 +329,22 @@ func pinnedC14(t *mon.T) {
 func runC14(r *mon.Run) {
 	r.Rule = "String(): Decimals over the whole exponent range with dense sampling at the plain/scientific switch-over points and the zero " +
 		"exception, compared with an independent to-scientific-string writer. Parsing: sentences generated from the grammar (all optional " +
-		"parts toggled, long digit runs, payloads, mixed case, exponents at the +/-100000 limits), single-byte insert/delete/replace/" +
+		"parts toggled, long digit runs, payloads, mixed case, exponents at the +/-100000 limits; a few strings of 64 KB to 400 KB with redundant zeros), single-byte insert/delete/replace/" +
 		"duplicate/swap mutations of them, fragment concatenations and random bytes; NewFromString, SetString, UnmarshalText and " +
 		"Scan(string/[]byte) must agree with each other and with an independent DFA recogniser (must-accept / must-reject / unconstrained " +
 		"sliver), and accepted strings must yield the recogniser's value. Format: verbs e E f F g G v s with flag subsets of {+,space,-,0} and " +
 		"widths 0..30 against a padding model that is calibrated against fmt's own float64 output at run time. distinct_nontrivial = " +
 		"distinct strings at edit distance 1 from the language boundary, distinct formatted (format, value) pairs and values."
 	r.Assumptions = []string{"the recogniser in internal/gda is a faithful transcription of the GDA numeric-string grammar",
-		"grammatical strings whose result is within the limits but whose written exponent field exceeds +/-100000 are unconstrained",
+		"grammatical strings whose result is within the limits but whose written exponent field, or whose fraction length, exceeds 100000 are unconstrained (each exponent component is limited separately)",
 		"for %v and %s only width and '-' are asserted"}
 	r.Serial("pinned", pinnedC14)
 	r.Parallel("string", r.N(150000, 15000000), stringCase)
 	r.Parallel("parse", r.N(300000, 30000000), parseAcceptCase)
+	r.Parallel("parse-giant", r.N(24, 600), func(t *mon.T) {
+		parseAcceptString(t, giantString(t.Rng))
+		t.Count("parse/giant")
+	})
 	r.Parallel("format", r.N(150000, 10000000), formatCase)
 	for _, cl := range []string{"parse/must-accept", "parse/must-reject", "parse/language-boundary", "string/zero-exception-zone", "string/adjusted-switch-zone",
 		"string/exponent-switch-zone", "format/e", "format/f", "format/G", "format/v", "format/s", "format/F"} {
